@@ -104,6 +104,16 @@ def decl_case(args) -> dict:
                         out["accepted"] += 1
                     except Exception:  # pylint: disable=broad-except
                         out["rejected"] += 1
+                if dtype in ("bytes", "str") and len(shape) == 1:
+                    # one bytes / str object whose LENGTH equals the declared
+                    # size (a string is a scalar, not a vector of characters)
+                    for v in (b"x" * shape[0], "y" * shape[0],
+                              bytearray(b"z" * shape[0])):
+                        try:
+                            f.write_example(values={"a": v}, split="train")
+                            out["accepted"] += 1
+                        except Exception:  # pylint: disable=broad-except
+                            out["rejected"] += 1
         except Exception as e:  # pylint: disable=broad-except
             out["bad"].append(("exit-fails",
                                f"closing the session raised "
